@@ -238,7 +238,7 @@ macro_rules! instrumented_atomic {
 
         #[allow(dead_code)]
         impl $name {
-            pub fn new(v: $prim) -> Self {
+            pub const fn new(v: $prim) -> Self {
                 Self(<$std>::new(v))
             }
             fn addr(&self) -> usize {
